@@ -41,7 +41,8 @@ Section Sort.
   Definition sort_by (l : list fc) : list fc := fold_right insert_by [] l.
 End Sort.
 
-(* the neighbour loop; `acc` is filtered_citations, last element first *)
+(* the neighbour loop; `acc` is filtered_citations, last element first.  (As repaired: a reference
+   that does not overlap the last kept citation is also checked against every kept citation.) *)
 Definition fstep (acc : list fc) (c : fc) : list fc :=
   match acc with
   | [] => [c]
@@ -50,6 +51,9 @@ Definition fstep (acc : list fc) (c : fc) : list fc :=
         if f_ref last then c :: rest          (* pop the reference, append c *)
         else if f_ref c then acc              (* skip the reference *)
         else c :: acc                         (* e.g. parallel full citations: keep both *)
+      else if f_ref c && existsb (fun x => overlapping (f_full c) (f_full x)) acc then
+        acc   (* (as repaired) a reference may also overlap an earlier, longer kept citation that is
+                 not the last one: drop the reference *)
       else c :: acc
   end.
 
